@@ -2,6 +2,7 @@ package core
 
 import (
 	"go/types"
+	"strings"
 
 	"golang.org/x/tools/go/callgraph"
 	"golang.org/x/tools/go/callgraph/vta"
@@ -49,8 +50,28 @@ func (p *Prog) repoCHA(fns map[*ssa.Function]bool) *callgraph.Graph {
 	type sigKey string
 	bySig := map[sigKey][]*ssa.Function{}
 	sigOf := func(s *types.Signature) sigKey {
-		// receiver-less signature string
-		return sigKey(types.TypeString(types.NewSignatureType(nil, nil, nil, s.Params(), s.Results(), s.Variadic()), nil))
+		// receiver-less signature, parameter and result NAMES left out (`func(_ *Clock, …)` is the same type as
+		// `func(clock *Clock, …)`: a renamed or blanked parameter must not cut the function value off its call sites)
+		var sb strings.Builder
+		sb.WriteString("func(")
+		for i := 0; i < s.Params().Len(); i++ {
+			if i > 0 {
+				sb.WriteString(",")
+			}
+			if s.Variadic() && i == s.Params().Len()-1 {
+				sb.WriteString("...")
+			}
+			sb.WriteString(types.TypeString(s.Params().At(i).Type(), nil))
+		}
+		sb.WriteString(")(")
+		for i := 0; i < s.Results().Len(); i++ {
+			if i > 0 {
+				sb.WriteString(",")
+			}
+			sb.WriteString(types.TypeString(s.Results().At(i).Type(), nil))
+		}
+		sb.WriteString(")")
+		return sigKey(sb.String())
 	}
 	for fn := range all {
 		if fn.Signature == nil || fn.Synthetic != "" && fn.Parent() == nil && fn.Object() == nil {
